@@ -120,7 +120,7 @@ theorem apply_board_castle {p : Pos} {m : Move} {r t : Sq} (hep : isEnPassant p 
 
 /-! ### classification of pseudo-legal moves -/
 
-/-- what is known about a pawn move that is neither a capture en passant -/
+/-- what is known about a pawn move that is not an en-passant capture -/
 structure PawnFacts (p : Pos) (m : Move) (pc' : Piece) : Prop where
   noLast : pc' = .pawn → m.dst.rank ≠ p.stm.lastRank
   step : m.dst.rank - m.src.rank = p.stm.fwd ∨
@@ -843,7 +843,8 @@ theorem step_ep {p : Pos} {m : Move} (hv : ValidP p) (h : pseudoLegal p m = true
       simp
       omega
 
-/-- (b) the bounds on men and pawns survive because the counts never grow -/
+/-- all clauses together; (b) the bounds on men and pawns survive because the counts never grow,
+(e) the mover is not in check afterwards by the definition of `legal` -/
 theorem validP_step {p : Pos} {m : Move} (hv : ValidP p) (hl : legal p m = true) : ValidP (apply p m) := by
   simp only [legal, Bool.and_eq_true, Bool.not_eq_true'] at hl
   obtain ⟨hpl, hchk⟩ := hl
